@@ -48,6 +48,7 @@ type thread struct {
 	started  bool
 	isMain   bool
 	visits   map[string]int
+	vc       vclock
 }
 
 type pathResult struct {
@@ -107,6 +108,7 @@ func (in *Interp) spawn(fr *frame, fn value, args []value, pos token.Pos, name s
 		t.name = fmt.Sprintf("%s#%d", base, k)
 	}
 	in.threads = append(in.threads, t)
+	in.hbSpawn(in.cur, t)
 	done := in.pathDone
 	go func() {
 		if ok := <-t.wake; !ok {
@@ -145,6 +147,7 @@ func (in *Interp) spawn(fr *frame, fn value, args []value, pos token.Pos, name s
 			return
 		}
 		t.done = true
+		in.hbRelease(t) // thread exit publishes its history (Join / wg.Wait style observers acquire it)
 		in.reschedule(t, "exit", token.NoPos)
 		in.exited <- struct{}{}
 	}()
@@ -332,6 +335,7 @@ func (in *Interp) doSelect(fr *frame, cases []selCase, blocking bool, pos token.
 				i = in.decide("select", func() []int64 { return ready })
 			}
 			c := cases[i]
+			in.hbBoth(c.ch)
 			if c.send {
 				if c.ch.closed {
 					panic(runtimePanic{"send on closed channel"})
@@ -412,9 +416,19 @@ func (in *Interp) doSelect(fr *frame, cases []selCase, blocking bool, pos token.
 				th.desc = fmt.Sprintf("chan receive (chan #%d)", cases[0].ch.id)
 			}
 		}
+		for _, c := range cases {
+			if c.ch != nil {
+				in.hbRelease(c.ch)
+			}
+		}
 		in.visit(th, in.syncWhere(th.desc, pos)+"/wait")
 		in.rescheduleAt(th, th.desc, pos, "/wait")
 		th.blocked = nil
+		for _, c := range cases {
+			if c.ch != nil {
+				in.hbAcquire(c.ch)
+			}
+		}
 		// deregister
 		var doneReq *sendReq
 		for _, r := range th.sends {
@@ -474,6 +488,7 @@ func (in *Interp) chanClose(fr *frame, ch *chanV, cp token.Pos) {
 	if ch == nil {
 		panic(runtimePanic{"close of nil channel"})
 	}
+	in.hbRelease(ch)
 	in.syncOp(fr, "close", cp, nil)
 	if ch.closed {
 		panic(runtimePanic{"close of closed channel"})
